@@ -84,6 +84,8 @@ func Main() {
 		os.Exit(workMain(os.Args[2:]))
 	case "replay":
 		os.Exit(replayMain(os.Args[2:]))
+	case "c05dump":
+		os.Exit(c05Dump(os.Args[2:]))
 	case "realop":
 		os.Exit(realOpMain())
 	case "props":
@@ -222,7 +224,9 @@ func workMain(args []string) int {
 			os.WriteFile(*out+".current.json", b, 0o644)
 		}
 		x := &X{Tier: *tier, Race: race, Stats: st}
+		wd := armWatchdog(*propID, *seed, runSeed, *tier, race, params, *out)
 		v := prop.Execute(params, x)
+		wd.Stop()
 		st.Runs++
 		wo.Done++
 		if x.Inconclusive != "" {
@@ -268,6 +272,31 @@ func workMain(args []string) int {
 	}
 	flush()
 	return 0
+}
+
+// armWatchdog: a run that does not return within the budget is a hang (for C05 a
+// violation candidate, for every other property infrastructure trouble): the case
+// is left behind as a replay file and the process exits with status 4.
+func armWatchdog(propID string, seed, runSeed uint64, tier string, race bool, params any, out string) *time.Timer {
+	budget := 90 * time.Second
+	if race {
+		budget = 300 * time.Second
+	}
+	if m := os.Getenv("VERIF_WATCHDOG_MULT"); m != "" {
+		if v, err := strconv.Atoi(m); err == nil && v > 0 {
+			budget *= time.Duration(v)
+		}
+	}
+	return time.AfterFunc(budget, func() {
+		pj, _ := json.Marshal(params)
+		rf := ReplayFile{Property: propID, Signature: "hang", Detail: fmt.Sprintf("run did not return within %v", budget), Seed: seed, RunSeed: runSeed, Tier: tier, Race: race, Params: pj}
+		b, _ := json.MarshalIndent(rf, "", " ")
+		if out != "" {
+			os.WriteFile(out+".hang.json", b, 0o644)
+		}
+		fmt.Fprintf(os.Stderr, "WATCHDOG: run_seed=%d did not return within %v\n", runSeed, budget)
+		os.Exit(4)
+	})
 }
 
 // countSwitches: number of scheduling decisions (a lower bound on information in
@@ -319,7 +348,9 @@ func replayMain(args []string) int {
 		x.ReplayDecisions = unpackDecisions(rf.Decisions)
 		x.ReplayMode = 2
 	}
+	wd := armWatchdog(rf.Property, rf.Seed, rf.RunSeed, rf.Tier, vsim.RaceEnabled, params, "")
 	v := prop.Execute(params, x)
+	wd.Stop()
 	if x.Explored != nil && x.Explored.Diverged != "" {
 		fmt.Printf("DIVERGED: %s\n", x.Explored.Diverged)
 		return 2
@@ -356,6 +387,7 @@ type batchResult struct {
 	candidates []string
 	raceDeaths []string // .current.json of workers killed by a race report
 	raceLogs   []string
+	hangs      []string
 	infra      []string
 	wall       float64
 }
@@ -413,6 +445,8 @@ func runBatch(bin, propID, tier string, seed uint64, count, workers int, tmp, ta
 			if wo.Candidate != "" {
 				br.candidates = append(br.candidates, wo.Candidate)
 			}
+		case r.code == 4:
+			br.hangs = append(br.hangs, prefix+".hang.json")
 		case r.code == 66:
 			br.raceDeaths = append(br.raceDeaths, prefix+".current.json")
 			br.raceLogs = append(br.raceLogs, r.log)
@@ -561,6 +595,26 @@ func driveMain(args []string) int {
 				exit = 1
 			} else {
 				infra = append(infra, fmt.Sprintf("candidate %s (sig %s) did not reproduce from its minimised replay in a fresh process (exit %d): %s", c, rf.Signature, code, tail(out, 600)))
+			}
+		}
+		for _, c := range b.hangs {
+			if *propID != "C05" {
+				infra = append(infra, "watchdog: a run did not return within its budget (replay file "+c+")")
+				continue
+			}
+			cmd := exec.Command(bin, "replay", c)
+			cmd.Env = append(os.Environ(), "VERIF_WATCHDOG_MULT=4")
+			cmd.Run()
+			if cmd.ProcessState != nil && cmd.ProcessState.ExitCode() == 4 {
+				if !reported["hang"] {
+					reported["hang"] = true
+					dst := keep(c, "hang")
+					fmt.Printf("VIOLATION property=%s replay=%s\n  signature: hang (entry points did not return within 4x the watchdog budget in a fresh process)\n", *propID, dst)
+					violations++
+					exit = 1
+				}
+			} else {
+				infra = append(infra, "watchdog hit did not repeat with 4x budget in a fresh process: "+c)
 			}
 		}
 		for i, c := range b.raceDeaths {
